@@ -587,6 +587,11 @@ pub fn splice_suffix(b: &mut Builder, spec: &str, key: &[u8]) {
                 let n = b.buf.len();
                 b.buf[n - 9] ^= 0x08;
             }
+            // RFC-valid values that this library's value decoders refuse (a MESSAGE-INTEGRITY-SHA256 truncated to 16
+            // bytes, RFC 8489 14.6; a REALM with a non-ASCII character): where the ordering rule does not admit them
+            // they must be skipped like anything else
+            't' => b.push_attr(A_MI256, &[0x5a; 16]),
+            'r' => b.push_attr(A_REALM, "caf\u{e9}.example".as_bytes()),
             'f' => b.push_fingerprint(),
             'F' => {
                 b.push_fingerprint();
